@@ -16,17 +16,17 @@ def pairs (s : String) : List (Bytes × Bytes) :=
     | [a, b] => some (ofHex a, ofHex b)
     | _ => none
 
-/-- `ver;code;reason;headers;framing;body`, framing = `N` | `L:<lenText>` | `C:<size>=<data>,...` -/
+/-- `ver;code;reason;headers;framing;after;body`, framing = `N` | `L:<name>=<value>` | `C:<name>=<value>:<size>=<data>,...` -/
 def parseW (s : String) : Option WMsg :=
   match s.splitOn ";" with
-  | [v, c, r, hs, fr, b] =>
+  | [v, c, r, hs, fr, af, b] =>
     let framing : Option Framing :=
       if fr = "N" then some .none
       else match fr.splitOn ":" with
-        | ["L", lt] => some (.length (ofHex lt))
-        | ["C", cs] => some (.chunked (pairs cs))
+        | ["L", h] => (pairs h).head?.map Framing.length
+        | ["C", h, cs] => (pairs h).head?.map (Framing.chunked · (pairs cs))
         | _ => none
-    framing.map fun f => ⟨ofHex v, ofHex c, ofHex r, pairs hs, f, ofHex b⟩
+    framing.map fun f => ⟨ofHex v, ofHex c, ofHex r, pairs hs, f, pairs af, ofHex b⟩
   | _ => none
 
 def handle : List String → Option String
